@@ -102,8 +102,8 @@ impl Property for C19 {
     const ID: &'static str = "C19";
     const RULE: &'static str = "proptest-generated uncompressed response (payload x framing x chunk plan) whose transport script ends in a server pause at a generated point \
 (after the head, after a complete chunk, after any body byte, after the complete frame), everything before the pause arbitrarily segmented, caller read sizes 1 .. 1 MiB; oracle: send() and every \
-read needed to obtain the bytes already entitled (all received bytes for length/close, data of completely received chunks for chunked) never reach the pause and return >= 1 byte. \
-non-trivial = pause inside the body and entitled bytes non-empty";
+read needed to obtain the bytes already entitled (all received bytes for length/close, data of completely received chunks for chunked) never reach the pause and return >= 1 byte; one case in five consumes the body with write_to into a writer that notes what it had been given when the transport ran dry (all entitled bytes); \
+one in sixteen is a head-only 1xx/204/304 response followed by the pause (send() and the first read return at once). non-trivial = pause inside the body and entitled bytes non-empty";
 
     fn assumptions() -> Vec<String> {
         vec!["a read that reaches the scripted pause is answered with TimedOut so the case ends; it is recorded by the transport (would_block)".into()]
